@@ -1,14 +1,96 @@
-"""C23 - IPAM garbage collection never frees an address that is still in use."""
+"""C23 - IPAM garbage collection never frees an address that is still in use.
+
+Driver: harness/C23/cmd (package main entered through testing.Main so that testing/synctest gives the controller's
+time.Now() a virtual clock) + add-only shim harness/C23/shims/kube-controllers/pkg/controllers/node/zz_verif_c23.go.
+The flow is vlib.standard_flow; classification of a failing case re-evaluates the specification oracle's parts
+(Spec.diag_case) for that one case inside Coq.
+"""
+import os, re, subprocess
 import vlib
+
+KEY_SPLIT = "handle-split-by-late-revalidation"
+KEY_CUT = "handle-split-by-batch-cut"
+KEY_AFF = "stale-blocksbynode-after-affinity-move"
+
+# order of the booleans in Spec.diag_case
+PARTS = ["release", "grace", "handles", "lastblock", "grace-dump", "books-allocs", "books-bynode", "books-byhandle",
+         "books-conf", "books-blocks", "books-blocksbynode"]
+
+
+def diag(coq_term):
+    d = "/tmp/diag-C23-%d" % os.getpid()
+    os.makedirs(d, exist_ok=True)
+    path = os.path.join(d, "diag.v")
+    with open(path, "w") as f:
+        f.write("From Coq Require Import List NArith.\nImport ListNotations.\nFrom Verif.C23 Require Import Model Spec.\n"
+                "Open Scope N_scope.\nDefinition k := %s.\nEval vm_compute in diag_case k.\n" % coq_term)
+    r = subprocess.run(["timeout", "300", "coqc", "-Q", vlib.THEORIES, "Verif", "-w", "none", path], cwd=d,
+                       stdout=subprocess.PIPE, stderr=subprocess.STDOUT, text=True)
+    failing = set()
+    for m in re.finditer(r"\[((?:true|false)(?:;\s*(?:true|false))*)\]", r.stdout):
+        vals = re.split(r";\s*", m.group(1))
+        if len(vals) == len(PARTS):
+            failing |= {PARTS[i] for i, v in enumerate(vals) if v == "false"}
+    for fn in os.listdir(d):
+        os.remove(os.path.join(d, fn))
+    os.rmdir(d)
+    return failing if r.returncode == 0 else None
+
+
+def classify(line):
+    failing = diag(line["coq"])
+    if not failing:
+        return None
+    tags = line.get("tags", [])
+    if failing == {"handles"}:
+        return KEY_SPLIT
+    if failing <= {"books-blocksbynode", "lastblock"} and ("affinity-moved" in tags or "affinity-to-other" in tags):
+        return KEY_AFF
+    if failing <= {"books-blocksbynode", "lastblock", "handles"} and ("affinity-moved" in tags or "affinity-to-other" in tags):
+        return KEY_AFF        # both known classes in one history
+    return None
+
+
+def extra(ctx, lines):
+    out = []
+    for l in lines:
+        bc = l.get("batchcut")
+        if bc and bc.get("split_handles", 0) > 0:
+            out.append((dict(kind="implementation-check", key=KEY_CUT, observed=bc,
+                             note="garbageCollectKnownLeaks with 10001 confirmed leaks: the 10000-entry batch cut leaves one address "
+                                  "of a handle out of the ReleaseIPs call that releases the handle's other addresses"), ""))
+    return out
+
 
 CFG = dict(
     imports=["From Verif.C23 Require Import Model Spec.", "Open Scope N_scope."],
     checker="check_case",
     n=dict(quick=200, thorough=8000),
     shard=25,
-    rule="TBD",
-    trusted=["Coq 8.16.1 kernel + vm_compute"],
-    assumptions=[],
+    classify=classify,
+    extra=extra,
+    rule="histories of 14-45 inputs over 2-3 nodes, 2-4 pods, 2-3 blocks (/29, ordinals 0-4), handles shared by several "
+         "addresses, tunnel / windows-reserved / handle-less / attribute-less allocations: block updates (allocate, free, "
+         "re-allocate in place with a new sequence number, affinity removed / moved / non-host, delete, re-delivery, 10% of "
+         "updates withheld), pods created / deleted / rescheduled / evicted / without IPs in the API server and the informer "
+         "cache SEPARATELY (lag), Kubernetes nodes and Calico nodes (datastore and syncer separately) deleted and re-created, "
+         "pod deletion events, full-scan requests, time steps around the grace periods (60 s, 900 s, 0, unset), GC syncs at "
+         "arbitrary points; every input is applied synchronously to the REAL IPAMController (handleUpdate / syncIPAM) with a "
+         "recording IPAM client, the fake clientset, real informer indexers and a virtual clock (testing/synctest); observed "
+         "per sync: ReleaseIPs options (address, handle, sequence number), ReleaseBlockAffinity and ReleaseHostAffinities "
+         "calls, full bookkeeping dump; plus one full-size run of the 10000-entry batch cut (10001 confirmed leaks).  "
+         "non-trivial = some allocation became a leak candidate or something was released; distinct by the input history",
+    trusted=["Coq 8.16.1 kernel + vm_compute",
+             "hand-written model coq/theories/C23/Model.v tied to kube-controllers/pkg/controllers/node/ipam.go and "
+             "ipam_allocation.go by this correspondence run (outputs and full bookkeeping after every sync must be producible by "
+             "the model under some iteration order of confirmedLeaks / emptyBlocks)",
+             "Go driver harness/C23 (overlay, tag verif), the fake Kubernetes clientset, client-go indexers, testing/synctest"],
+    assumptions=["KubeVirt VM/VMI allocations, IP cooldown (ReleasedAt / garbageCollectColdIPs), IP pools and metrics, flannel "
+                 "migration labels, non-Kubernetes Calico nodes and API errors are not modelled (generator excludes them): partial",
+                 "the IPAM client releases everything it is asked to (no partial ReleaseIPs failures)",
+                 "the node attribute of an allocation id (handle/address) does not change while the id is tracked",
+                 "block CIDRs do not overlap; names are modelled by numbers",
+                 "the model follows the tree: the driver probes whether fixes/C23-*.patch are applied (flags k_fixaff / k_fixgc)"],
 )
 
 
@@ -18,6 +100,10 @@ def run(ctx):
 
 MANIFEST = dict(
     category="proof",
-    text="TBD",
-    note="TBD",
+    text="Theorems over an executable model of the kube-controllers IPAM garbage collector (block bookkeeping, leak "
+         "candidates and grace period, final re-validation, per-handle release, empty-block release) for every history and "
+         "every map iteration order, plus a correspondence run of the model and a specification oracle against the real "
+         "IPAMController driven synchronously with a virtual clock.",
+    note="Partial: KubeVirt VM/VMI validity, cooldown GC, pools/metrics not modelled. Trusted: Coq kernel; hand-written "
+         "model tied to the code only by the correspondence run; Go driver and client-go fakes.",
 )
